@@ -3,16 +3,19 @@
 package vgirpc
 
 import (
+	"bufio"
 	"bytes"
 	"compress/gzip"
 	"context"
 	"errors"
 	"fmt"
 	"io"
+	"net"
 	"net/http"
 	"net/http/httptest"
 	"sort"
 	"strings"
+	"sync"
 	"testing"
 
 	"github.com/apache/arrow-go/v18/arrow"
@@ -468,6 +471,134 @@ func (rt *vfC21RT) RoundTrip(req *http.Request) (*http.Response, error) {
 }
 
 // ---------------------------------------------------------------------------
+// the wire: a real net/http Transport over in-memory connections
+//
+// The RoundTripper above replaces net/http's Transport, so whatever the
+// Transport itself does with a request (connection reuse, its own replay of
+// "idempotent" requests on a connection that died) is invisible to it. This
+// second environment keeps the real http.Transport and gives it net.Pipe
+// connections; the other end of each pipe is a tiny HTTP/1.1 server loop that
+// reads requests off the connection, logs them (this log IS the wire: it is what
+// the server side receives), lets the real HttpServer answer, and applies
+// connection-level faults. No sockets, no clock.
+
+var vfC21WireFaults = []string{"ok", "conn-closed-after-server", "conn-closed-before-server", "conn-closed-mid-response", "respond-then-close-conn"}
+
+type vfC21Wire struct {
+	mu        sync.Mutex
+	h         http.Handler
+	log       *vfC21RT // requests are appended to log.reqs (the oracle reads them there)
+	plan      []string // fault for the k-th request that arrives on the wire
+	closeEach bool     // answer every request with Connection: close (no connection reuse)
+	dials     int
+	wg        sync.WaitGroup
+}
+
+func (wr *vfC21Wire) dial(ctx context.Context, network, addr string) (net.Conn, error) {
+	c, srv := net.Pipe()
+	wr.mu.Lock()
+	wr.dials++
+	wr.mu.Unlock()
+	wr.wg.Add(1)
+	go wr.serve(srv)
+	return c, nil
+}
+
+func (wr *vfC21Wire) serve(conn net.Conn) {
+	defer wr.wg.Done()
+	defer conn.Close()
+	br := bufio.NewReader(conn)
+	for {
+		req, err := http.ReadRequest(br)
+		if err != nil {
+			return
+		}
+		body, _ := io.ReadAll(req.Body)
+		req.Body.Close()
+		r := &vfC21Req{path: req.URL.Path}
+		if sts, _, perr := vfParseStreams(body); perr == nil {
+			for _, st := range sts {
+				for _, b := range st.Batches {
+					if v, ok := b.M(MetaStreamState); ok {
+						r.cursor = v
+					}
+				}
+			}
+		}
+		wr.mu.Lock()
+		k := len(wr.log.reqs)
+		fault := "ok"
+		if k < len(wr.plan) {
+			fault = wr.plan[k]
+		}
+		r.fault = fault
+		wr.log.reqs = append(wr.log.reqs, r)
+		wr.mu.Unlock()
+		if fault == "conn-closed-before-server" {
+			return
+		}
+		sreq := httptest.NewRequest(req.Method, "http://srv.test"+req.URL.RequestURI(), bytes.NewReader(body))
+		sreq.Header = req.Header.Clone()
+		rec := httptest.NewRecorder()
+		wr.h.ServeHTTP(rec, sreq)
+		wire := rec.Body.Bytes()
+		plain := wire
+		enc := strings.TrimSpace(rec.Header().Get(contentEncodingHeader))
+		if enc == "" {
+			enc = strings.TrimSpace(rec.Header().Get(customContentEncodingHeader))
+		}
+		if enc != "" && !strings.EqualFold(enc, identityEncoding) {
+			if d, derr := DecodeContentEncoding(wire, enc, 64<<20); derr == nil {
+				plain = d
+			}
+		}
+		wr.mu.Lock()
+		r.reached, r.status, r.plain = true, rec.Code, plain
+		wr.mu.Unlock()
+		if fault == "conn-closed-after-server" {
+			return
+		}
+		hdr := rec.Header().Clone()
+		closing := wr.closeEach || fault == "respond-then-close-conn"
+		if closing {
+			hdr.Set("Connection", "close")
+		}
+		resp := &http.Response{Proto: "HTTP/1.1", ProtoMajor: 1, ProtoMinor: 1, Header: hdr, Close: closing,
+			StatusCode: rec.Code, Status: fmt.Sprintf("%d %s", rec.Code, http.StatusText(rec.Code)),
+			ContentLength: int64(len(wire)), Body: io.NopCloser(bytes.NewReader(wire))}
+		var out bytes.Buffer
+		resp.Write(&out)
+		if fault == "conn-closed-mid-response" {
+			conn.Write(out.Bytes()[:out.Len()-len(wire)/2-1])
+			return
+		}
+		if _, err := conn.Write(out.Bytes()); err != nil || closing {
+			return
+		}
+	}
+}
+
+// vfC21NewWireWorld is vfC21NewWorld with the real http.Transport over the wire above.
+func vfC21NewWireWorld(compress bool, turns []VfTurn, plan []string, closeEach bool) (*vfC21World, func()) {
+	// the server objects come from the ordinary constructor; only the client's transport differs
+	w := vfC21NewWorld(nil, compress, turns, func(int) (string, vfC21Flip) { return "ok", nil })
+	wr := &vfC21Wire{h: w.rt.h, log: w.rt, plan: plan, closeEach: closeEach}
+	tr := &http.Transport{DialContext: wr.dial, DisableCompression: true, MaxIdleConnsPerHost: 4}
+	c, err := NewHttpClient("http://srv.test",
+		WithClientHTTPClient(&http.Client{Transport: tr}),
+		WithClientResponseLimits(vfC21MaxEncoded, vfC21MaxDecoded),
+		WithClientLogHandler(func(m LogMessage) { w.logs = append(w.logs, string(m.Level)+":"+m.Message) }))
+	if err != nil {
+		panic(err)
+	}
+	w.client = c
+	return w, func() {
+		tr.CloseIdleConnections()
+		wr.wg.Wait()
+	}
+}
+
+// ---------------------------------------------------------------------------
 // helpers for the oracle
 
 // vfC21Emitted returns the batches of a server response that are neither log
@@ -549,8 +680,11 @@ func vfC21FaultByName(n string) vfC21Fault {
 			return f
 		}
 	}
-	if n == "flip-not-delivered" {
+	if n == "flip-not-delivered" || strings.HasPrefix(n, "conn-closed-") {
 		return vfC21Fault{n, "must"}
+	}
+	if n == "respond-then-close-conn" {
+		return vfC21Fault{n, "benign"}
 	}
 	if strings.HasPrefix(n, "flip") {
 		return vfC21Fault{n, "may"}
@@ -563,7 +697,7 @@ func vfC21FaultGroup(n string) string {
 	switch {
 	case n == "ctx-cancelled-after-server":
 		return "context-cancelled"
-	case strings.HasPrefix(n, "drop-"), n == "flip-not-delivered":
+	case strings.HasPrefix(n, "drop-"), n == "flip-not-delivered", strings.HasPrefix(n, "conn-closed-"):
 		return "lost-response"
 	case strings.HasPrefix(n, "status-"):
 		return "non-2xx"
@@ -938,6 +1072,30 @@ func TestVerif_C21(t *testing.T) {
 		if tooLong {
 			vfC21Failf(x, "C21:harness:flip-arity-too-small", "region %s of response %d is longer than its arity %d", target, resp, flipArity[target])
 		}
+	})
+
+	// ---- space 2b: the same exchange histories over the real net/http Transport ------------
+	// (connection reuse, connection-level drops; the wire log is what the server side received)
+	venum.Explore(t, venum.Cfg{Name: "wire-histories", Shardable: true, DevBound: venum.QT(1, 2)}, func(x *venum.X) {
+		compress := !x.Bool("server-compression-off")
+		closeEach := x.Bool("connection-close-after-every-response")
+		kinds := []string{"emit", "emit-meta-log", "emit"}
+		if x.Bool("second-turn-raises") {
+			kinds[1] = "fail-rpc"
+		}
+		turns := make([]VfTurn, len(kinds))
+		for i, k := range kinds {
+			turns[i] = vfC21Turn(k)
+		}
+		// one fault slot per request the history can legitimately put on the wire (init + turns);
+		// anything beyond (a replay) is answered normally
+		plan := make([]string, len(kinds)+1)
+		for k := range plan {
+			plan[k] = vfC21WireFaults[x.Deviate(len(vfC21WireFaults), fmt.Sprintf("wirefault@req%d", k))]
+		}
+		w, done := vfC21NewWireWorld(compress, turns, plan, closeEach)
+		defer done()
+		vfC21Exchange(x, w, kinds, okDecl, true, 0)
 	})
 
 	// ---- space 3: declarations that do not match the server, init exceptions ---------
